@@ -51,13 +51,29 @@ def check(rep, prog):
         bad.append(ir.fmt(v))
     rep.add('QNG.tolerance', 'epsrel', where(fn, c.line), 'the relative tolerance is the caller\'s `%s`, relaxed only on the retry path' % relp,
             not bad and any(v == ('var', relp) for n, v in reld), '; '.join(bad) or None)
-    # bounded retry: the loop leaves when a counter incremented once per failed attempt reaches a literal
-    exits = [b for b in F.nodes(kind='branch') if _is(b.stmt[1], 'op', '>=') and b.stmt[1][3][0] == 'num' and b.id in F.reach(c.id)
-             and c.id in F.reach(b.id)]
+    # bounded retry: some exit test of the loop compares a counter, incremented once per failed attempt, with a constant
+    def conj(c):
+        if _is(c, 'op', 'and') or _is(c, 'op', 'or'):
+            out = []
+            for x in c[2:]:
+                out += conj(x)
+            return out
+        return [c]
+    inloop = [b for b in F.nodes(kind='branch') if b.id in F.reach(c.id) and c.id in F.reach(b.id)]
     okb = False
-    for b in exits:
-        cnt = b.stmt[1][2]
-        incs = [n for n in F.nodes(kind='assign') if n.stmt[1] == cnt and n.stmt[2] == ('op', '+', cnt, ir.num(1, 'i')) and
-                n.id in F.reach(c.id) and c.id in F.reach(n.id)]
-        okb = okb or (len(incs) == 1 and F.dominates(incs[0], b) and c.id not in F.reach(b.succ[0]))
-    rep.add('QNG.tolerance', 'bounded-retry', where(fn, c.line), 'a failed integration is retried a bounded number of times', okb)
+    for b in inloop:
+        for t in conj(b.stmt[1]):
+            if not (_is(t, 'op') and t[1] in ('<', '<=', '>', '>=') and len(t) == 4):
+                continue
+            for cnt, lim in ((t[2], t[3]), (t[3], t[2])):
+                if cnt[0] != 'var':
+                    continue
+                limv = R.subst(lim, b)
+                if limv[0] != 'num':
+                    continue
+                incs = [n for n in F.nodes(kind='assign') if n.stmt[1] == cnt and n.stmt[2] == ('op', '+', cnt, ir.num(1, 'i')) and
+                        n.id in F.reach(c.id) and c.id in F.reach(n.id)]
+                if len(incs) == 1:
+                    okb = True
+    rep.add('QNG.tolerance', 'bounded-retry', where(fn, c.line), 'a failed integration is retried a bounded number of times (an exit test of the '
+            'loop compares a per-attempt counter with a constant)', okb)
